@@ -314,6 +314,8 @@ class _Rewriter(ast.NodeTransformer):
 
 
 class Extracted:
+    sym_containers = False
+
     def __init__(self, relpath, qualname, fn_node, text, orig_text, path, loops_seen):
         self.relpath, self.qualname = relpath, qualname
         self.node, self.text, self.orig_text, self.path = fn_node, text, orig_text, path
@@ -324,14 +326,59 @@ class Extracted:
     def name(self):
         return self.node.name
 
-    def compile_into(self, env):
-        """exec the rewritten def in `env`; returns the resulting object bound to its name."""
+    def compile_into(self, env, autoinline=True):
+        """exec the rewritten def in `env`; returns the resulting object bound to its name.
+
+        R9 (auto-inline): a global name the function uses that the sidecar's environment does not supply and that is a plain
+        module-level ``def`` of the SAME real module (typically a helper introduced by a refactoring) is extracted with the same
+        rewrites and compiled into the same environment - a callee without a contract of its own is verified inline, through the
+        stubs of its caller's environment.  Loops in such a helper need a contract (cut_loops='auto'), otherwise the unit is undecided."""
         mod = ast.Module(body=[self.node], type_ignores=[])
         ast.fix_missing_locations(mod)
         env.setdefault("__locals", locals_snapshot)
         code = compile(mod, self.path, "exec")
         exec(code, env)
-        return env[self.node.name]
+        result = env[self.node.name]
+        if autoinline:
+            self._autoinline(code, env, set())
+        return result
+
+    def _autoinline(self, code, env, seen):
+        import builtins
+
+        tree, _, _ = module_ast(self.relpath)
+        top = {st.name: st for st in tree.body if isinstance(st, ast.FunctionDef)}
+        for name in sorted(_global_names(code)):
+            if name in env or name in seen or hasattr(builtins, name) or name not in top:
+                continue
+            seen.add(name)
+            try:
+                ex = extract(self.relpath, name, cut_loops="auto", sym_containers=self.sym_containers)
+            except ExtractionError:
+                continue
+            m = ast.Module(body=[ex.node], type_ignores=[])
+            ast.fix_missing_locations(m)
+            c = compile(m, ex.path, "exec")
+            exec(c, env)
+            AUTOINLINED.append(ex)
+            ex._autoinline(c, env, seen)
+
+
+AUTOINLINED = []  # Extracted objects compiled by R9 (drained by ujvc.units.get's caller for the evidence)
+
+
+def _global_names(code):
+    import dis
+
+    out = set()
+    todo = [code]
+    while todo:
+        c = todo.pop()
+        for ins in dis.get_instructions(c):
+            if ins.opname in ("LOAD_GLOBAL", "LOAD_NAME"):
+                out.add(ins.argval)
+        todo.extend(k for k in c.co_consts if hasattr(k, "co_code"))
+    return out
 
 
 def locals_snapshot():
@@ -363,7 +410,9 @@ def extract(relpath, qualname, *, cut_loops=None, native_loops=(), cut_comps=Fal
     if missing:
         raise ExtractionError(f"{relpath}:{qualname}: sidecar names loops {missing} that no longer exist")
     ast.fix_missing_locations(node)
-    return Extracted(relpath, qualname, node, ast.unparse(node), orig_text, path, rw.loops_seen)
+    ex = Extracted(relpath, qualname, node, ast.unparse(node), orig_text, path, rw.loops_seen)
+    ex.sym_containers = sym_containers
+    return ex
 
 
 def source_text(relpath, qualname):
